@@ -217,10 +217,15 @@ static int32_t wr_index(struct jls_core_fsr_s * self, uint8_t level) {
 static int32_t wr_summary(struct jls_core_fsr_s * self, uint8_t level) {
     struct jls_core_fsr_level_s * dst = self->level[level];
     if (!dst->summary->header.entry_count) {
-        if ((level != 1) || !dst->index->header.entry_count) {
+        // Only reached on close.  The pending index entries must still be written when
+        // this level is needed to reach them: always for level 1 (the reader locates data
+        // through it), and for upper levels when this level already has a chunk on disk.
+        struct jls_core_track_s * track = &self->parent->tracks[JLS_TRACK_TYPE_FSR];
+        if (!dst->index->header.entry_count) {
+            return 0;
+        } else if ((level > 1) && !track->head_offsets[level]) {
             return 0;
         }
-        // level 1: keep the index for a final block shorter than one summary entry
     }
     int64_t pos_next = jls_raw_chunk_tell(self->parent->parent->raw);
     ROE(wr_index(self, level));
